@@ -1,6 +1,7 @@
 package main
 
 import (
+	"regexp"
 	"fmt"
 	"go/types"
 	"sort"
@@ -62,6 +63,7 @@ type Obligation struct {
 
 // VC is the verification condition context of one function under contract (or one lemma).
 type VC struct {
+	split  bool // decide at-call assertions and postconditions path by path (option split)
 	Name   string
 	ss     *Sorts
 	nodes  []*Node
@@ -189,11 +191,20 @@ func (vc *VC) script(ob *Obligation, opts scriptOpts) string {
 			return
 		}
 		anc[n] = true
+		if c, ok := opts.choice[n]; ok {
+			mark(c)
+			return
+		}
 		for _, p := range n.Preds {
 			mark(p)
 		}
 	}
 	mark(target)
+	// path splitting: at a join with a chosen predecessor only the edge from that predecessor exists
+	cut := func(from *Node, e *Edge) bool {
+		c, ok := opts.choice[e.To]
+		return ok && c != from
+	}
 	// topological order: nodes were created in an order compatible with edges only
 	// approximately, so sort by DFS finishing order from roots.
 	var order []*Node
@@ -233,7 +244,7 @@ func (vc *VC) script(ob *Obligation, opts scriptOpts) string {
 				facts = append(facts, n.Stmts[i].F)
 			}
 			for _, e := range n.Succ {
-				if anc[e.To] {
+				if anc[e.To] && !cut(n, e) {
 					facts = append(facts, e.Cond)
 					facts = append(facts, e.Assumes...)
 				}
@@ -305,7 +316,7 @@ func (vc *VC) script(ob *Obligation, opts scriptOpts) string {
 		} else {
 			var conj []string
 			for _, e := range n.Succ {
-				if !anc[e.To] {
+				if !anc[e.To] || cut(n, e) {
 					continue
 				}
 				inner := fmt.Sprintf("ok_%d", e.To.ID)
@@ -411,11 +422,34 @@ func (vc *VC) script(ob *Obligation, opts scriptOpts) string {
 	if axtext != "" {
 		for _, a := range vc.axioms {
 			if axiomRelevant(a, usedAll) && relevant(a) {
+				if inst, ok := vc.heapInstances(a, usedAll, all); ok {
+					for _, ia := range inst {
+						fmt.Fprintf(&out, "(assert %s)\n", ia)
+					}
+					continue
+				}
 				fmt.Fprintf(&out, "(assert %s)\n", a)
 			}
 		}
 	}
-	out.WriteString(text)
+	if opts.cvc5 {
+		// cvc5 accepts (as const ...) only over values: name the zero arrays whose element mentions a string constant
+		sofar := out.String()
+		out.Reset()
+		decls, rewritten := cvc5ConstArrays(sofar + text)
+		// declarations must precede their first use: put them right after the string literal block
+		cut := strings.Index(rewritten, "(assert (forall ((s Str)) (! (>= (u_slen s) 0)")
+		if cut < 0 || decls == "" {
+			out.WriteString(rewritten)
+		} else {
+			// the zero arrays mention datatype sorts and string constants only, all declared before this point
+			out.WriteString(rewritten[:cut])
+			out.WriteString(decls)
+			out.WriteString(rewritten[cut:])
+		}
+	} else {
+		out.WriteString(text)
+	}
 	out.WriteString("(check-sat)\n")
 	if opts.model && len(modelVars) > 0 {
 		if len(modelVars) > 400 {
@@ -427,7 +461,79 @@ func (vc *VC) script(ob *Obligation, opts scriptOpts) string {
 	return out.String()
 }
 
+// pathChoices splits the paths that reach an obligation at the joins nearest to it: each choice maps some join nodes
+// to the single predecessor kept. The obligation holds iff it holds under every choice (together they cover all paths).
+func (vc *VC) pathChoices(ob *Obligation, max int) []map[*Node]*Node {
+	choices := []map[*Node]*Node{{}}
+	for {
+		progressed := false
+		var next []map[*Node]*Node
+		for _, ch := range choices {
+			// nearest unsplit join (breadth-first, backwards from the target, following the choices made so far)
+			var join *Node
+			seen := map[*Node]bool{ob.node: true}
+			queue := []*Node{ob.node}
+			for len(queue) > 0 && join == nil {
+				n := queue[0]
+				queue = queue[1:]
+				if c, ok := ch[n]; ok {
+					if !seen[c] {
+						seen[c] = true
+						queue = append(queue, c)
+					}
+					continue
+				}
+				distinct := map[*Node]bool{}
+				for _, p := range n.Preds {
+					distinct[p] = true
+				}
+				if len(distinct) > 1 {
+					join = n
+					break
+				}
+				for _, p := range n.Preds {
+					if !seen[p] {
+						seen[p] = true
+						queue = append(queue, p)
+					}
+				}
+			}
+			if join == nil {
+				next = append(next, ch)
+				continue
+			}
+			distinct := map[*Node]bool{}
+			var preds []*Node
+			for _, p := range join.Preds {
+				if !distinct[p] {
+					distinct[p] = true
+					preds = append(preds, p)
+				}
+			}
+			if len(choices)-1+len(preds)+len(next) > max {
+				next = append(next, ch)
+				continue
+			}
+			progressed = true
+			for _, p := range preds {
+				c2 := map[*Node]*Node{}
+				for k, v := range ch {
+					c2[k] = v
+				}
+				c2[join] = p
+				next = append(next, c2)
+			}
+		}
+		choices = next
+		if !progressed || len(choices) >= max {
+			break
+		}
+	}
+	return choices
+}
+
 type scriptOpts struct {
+	choice map[*Node]*Node // path splitting: the predecessor kept at each listed join
 	noPrune bool
 	pruneAlloc bool // do not let allocation-counter constants link facts together
 	rounds     int  // relevance closure depth (0 = transitive closure)
@@ -498,4 +604,119 @@ func constIdents(s string) map[string]bool {
 		}
 	}
 	return m
+}
+
+// cvc5ConstArrays replaces every ((as const (Array K E)) Z) whose Z is not a value for cvc5 (it mentions an
+// uninterpreted string constant) by a named array constant with the pointwise axiom.
+func cvc5ConstArrays(script string) (decls string, out string) {
+	const key = "((as const "
+	names := map[string]string{}
+	var db strings.Builder
+	var b strings.Builder
+	i := 0
+	for {
+		j := strings.Index(script[i:], key)
+		if j < 0 {
+			b.WriteString(script[i:])
+			break
+		}
+		j += i
+		// find the end of the whole term: the paren opened at j
+		depth, k := 0, j
+		for ; k < len(script); k++ {
+			if script[k] == '(' {
+				depth++
+			} else if script[k] == ')' {
+				depth--
+				if depth == 0 {
+					break
+				}
+			}
+		}
+		term := script[j : k+1]
+		if !strings.Contains(term, "strlit_") {
+			b.WriteString(script[i : k+1])
+			i = k + 1
+			continue
+		}
+		name, ok := names[term]
+		if !ok {
+			// sort: between "((as const " and the matching ")"
+			d, e := 0, j+len(key)
+			for ; e < len(script); e++ {
+				if script[e] == '(' {
+					d++
+				} else if script[e] == ')' {
+					if d == 0 {
+						break
+					}
+					d--
+				}
+			}
+			sort := script[j+len(key) : e]
+			zero := strings.TrimSpace(script[e+1 : k])
+			name = fmt.Sprintf("zarr_%d", len(names))
+			names[term] = name
+			ks := "Int"
+			if strings.HasPrefix(sort, "(Array ") {
+				f := strings.Fields(sort[len("(Array "):])
+				if len(f) > 0 {
+					ks = f[0]
+				}
+			}
+			fmt.Fprintf(&db, "(declare-const %s %s)\n(assert (forall ((zk %s)) (! (= (select %s zk) %s) :pattern ((select %s zk)))))\n", name, sort, ks, name, zero, name)
+		}
+		b.WriteString(script[i:j])
+		b.WriteString(name)
+		i = k + 1
+	}
+	return db.String(), b.String()
+}
+
+var heapVarRe = regexp.MustCompile(`(^|[^A-Za-z0-9_.!$])h([^A-Za-z0-9_.!$]|$)`)
+
+// heapInstances: an axiom quantified over a heap variable h (an array of arrays) is stated once per heap constant in
+// use instead. The instances say the same for every heap the script can mention; z3's array theory reports a
+// quantified array-sorted variable as incomplete and then gives up before deeper instantiation rounds.
+// ok=false when the axiom is not of that shape or some application has a heap argument that is not a constant.
+func (vc *VC) heapInstances(a string, used map[string]bool, text string) ([]string, bool) {
+	const pre = "(forall ((h (Array Int (Array Int "
+	if !strings.HasPrefix(a, pre) {
+		return nil, false
+	}
+	// the heap sort: balanced from the '(' after "(h "
+	start := len("(forall ((h ")
+	depth, end := 0, -1
+	for i := start; i < len(a); i++ {
+		if a[i] == '(' {
+			depth++
+		} else if a[i] == ')' {
+			depth--
+			if depth == 0 {
+				end = i
+				break
+			}
+		}
+	}
+	if end < 0 || end+2 >= len(a) || a[end+1] != ')' {
+		return nil, false
+	}
+	hs := a[start : end+1]
+	rest := strings.TrimLeft(a[end+2:], " ") // remaining binders and body
+	// functions of the axiom applied to a non-constant heap term: keep the general form
+	for id := range identSet(a) {
+		if strings.HasPrefix(id, "uf_") && strings.Contains(text, "("+id+" (") {
+			return nil, false
+		}
+	}
+	var out []string
+	for _, c := range vc.corder {
+		if vc.consts[c] != hs || !used[c] {
+			continue
+		}
+		body := heapVarRe.ReplaceAllString(rest, "${1}"+c+"${2}")
+		body = heapVarRe.ReplaceAllString(body, "${1}"+c+"${2}") // adjacent occurrences share a delimiter
+		out = append(out, "(forall ("+body)
+	}
+	return out, true
 }
